@@ -403,7 +403,7 @@ pub fn run(rc: &mut RunCtx) {
     let chosen: Vec<Vec<E>> = if rc.quick() {
         let mut v = sets.clone();
         r.shuffle(&mut v);
-        v.truncate(rc.n(24, 0) as usize);
+        v.truncate(rc.n(40, 0) as usize);
         v
     } else {
         rc.note("exhaustive_over", json!("every set of <= 4 events with at least one server close and one client request (request variants included) x every order inside one batch"));
